@@ -36,6 +36,9 @@ PROPS["C02"] = dict(
         "Zrnt.Proofs.C02.historical_eq",
         "Zrnt.Proofs.C02.participation_rotation_eq",
         "Zrnt.Proofs.C02.syncCommittee_rotation_eq",
+        "Zrnt.Proofs.C02.rewards_phase0_eq",
+        "Zrnt.Proofs.C02.attestationDeltas_phase0_eq",
+        "Zrnt.Proofs.C02.targetStakes_phase0_eq",
         "Zrnt.Proofs.C02.effectiveBalance_snapshot_eq",
     ],
     modes=[dict(name="c02", nontrivial=_nontrivial)],
